@@ -66,7 +66,7 @@ pub struct MinOut {
 
 pub fn run_min(c: &MinCase, m2s: bool, work: &str, uid: &str) -> MinOut {
     crate::p_file::ID_MOD.store(dup_of(&c.sched), std::sync::atomic::Ordering::SeqCst);
-    let inp = write_input(work, uid, &c.recs, "fa");
+    let inp = write_input(work, uid, &c.recs, &crate::p_file::container_for(&c.req(), &c.recs));
     crate::p_file::ID_MOD.store(0, std::sync::atomic::Ordering::SeqCst);
     let outp = format!("{}/min_{}.txt", work, uid);
     let _ = std::fs::remove_file(&outp);
